@@ -60,6 +60,15 @@ def run(ctx, info):
         for mode in ("process", "thread"):
             jobs.append({"opt": nm, "cfg": {"max_cycles": 2, "fitness_error": None, "population_size": 12}, "task": search.cont_task(obj="sphere", seed=r.choice([None, 42]), dim=3, delay=0.0004),
                          "mode": mode, "workers": 16, "record": True})
+    # the second pooled run in an interpreter is the first: the objective reads program state outside the task (a module-level setting) that CHANGED since an earlier
+    # pooled run with the same mode and worker count - every evaluation, wherever it runs, must see the state of the call it belongs to (no pool kept across calls)
+    for nm in pooled_greedy_users[:2] + pick[-3:]:
+        for mode in ("process", "thread"):
+            wk = r.choice([2, 3])
+            mk = lambda shift: search.cont_task(obj="global:sphere", minmax=r.choice(["min", "max"]), seed=r.choice([None, 7]), dim=3, global_shift=shift)
+            # (run in a FRESH interpreter - "hashseed" - not in a worker of the search harness's own pool: what a user's program is)
+            jobs.append({"opt": nm, "cfg": {"max_cycles": 2, "fitness_error": None, "population_size": 12}, "task": mk(r.choice([5.0, -3.0])), "mode": mode, "workers": wk, "record": True, "hashseed": 0,
+                         "pre_jobs": [{"opt": nm, "cfg": {"max_cycles": 1, "fitness_error": None, "population_size": 12}, "task": mk(0.0), "mode": mode, "workers": wk}]})
     obs = search.run_jobs(jobs, procs=8)
     n_ok = 0
     for o in obs:
